@@ -193,6 +193,9 @@ pub fn run_check(spec: &CheckSpec, tier: Tier) -> i32 {
                                 hit = Some(f.clone());
                             }
                         } else {
+                            if std::env::var_os("RAINSIM_SHOW_OTHER").is_some() {
+                                eprintln!("other-property finding in run {}: {:?} [{}] {}", i, f.properties, f.signature, f.detail);
+                            }
                             for p in &f.properties {
                                 *acc.other_property_findings.entry(format!("{}:{}", p, f.class)).or_insert(0) += 1;
                             }
